@@ -4,7 +4,7 @@ r=json.load(open(sys.argv[1]))
 sc=r['scenario']
 v=r.get('violation') or {}
 print('VIOL',v.get('class'),v.get('sig'),(v.get('detail') or '')[:400])
-if 'model' in sc:
+if sc.get('model'):
     m=sc['model']
     for i,s in enumerate(m['streams']):
         print(' stream',i,'pid',hex(s['pid']),s['kind'],'cc0',s.get('cc0',0))
